@@ -80,7 +80,13 @@ func ruleX6(c *an.Ctx) {
 			default:
 				return false
 			}
-			return (mentions(r.X, forksField, 0) && mentions(r.Y, indexField, 0)) || (mentions(r.Y, forksField, 0) && mentions(r.X, indexField, 0))
+			// round 10: "every fork but the last takes a copy" (len(forks)-1 > index) was itself the
+			// defect - the last fork wrote its key into the part all forks share.  The copy must be
+			// taken whenever the node has more than one fork: a comparison of len(node.forks) with a
+			// constant, not with this fork's position.
+			isK := func(v ssa.Value) bool { _, ok := an.ConstVal(v); return ok }
+			return (mentions(r.X, forksField, 0) && !mentions(r.X, indexField, 0) && isK(r.Y)) ||
+				(mentions(r.Y, forksField, 0) && !mentions(r.Y, indexField, 0) && isK(r.X))
 		})
 		return g
 	}
@@ -99,7 +105,7 @@ func ruleX6(c *an.Ctx) {
 			if guardOK(x) {
 				return "private copy", true
 			}
-			return "a copy taken on an edge that does not compare the node's number of forks with this fork's index", false
+			return "a copy that is not taken whenever the node has more than one fork", false
 		case *ssa.Phi:
 			hasCopy := false
 			for _, e := range x.Edges {
@@ -107,7 +113,7 @@ func ruleX6(c *an.Ctx) {
 				case *ssa.Parameter:
 				case *ssa.Alloc:
 					if !guardOK(y) {
-						return "the private copy is taken on an edge that does not compare the node's number of forks (len(node.forks)) with this fork's position (Fork.index)", false
+						return "the private copy is not taken whenever the node has more than one fork (an edge comparing len(node.forks) with a constant): a fork that skips the copy - e.g. the last one - writes its own key into the part all forks share, and the other forks' results are merged against that key", false
 					}
 					hasCopy = true
 				default:
